@@ -489,7 +489,9 @@ func finish(c *Check, tier string, start time.Time, jobs []string, results []*Re
 		tot.Caps = append(tot.Caps, fmt.Sprintf("%d of %d jobs returned a result", len(results), len(jobs)))
 	}
 
-	// classify violations
+	// classify violations; replays run like the workers did (one P), so that the order in which
+	// goroutines of one step run is the same as in the recorded execution
+	runtime.GOMAXPROCS(1)
 	known := loadKnown()
 	exit := 0
 	printedKnown := map[string]bool{}
